@@ -323,6 +323,33 @@ func getAsync(c *Ctx) {
 					pickS(good, pickS(isErr, "result.Error = err only through err != nil", "result.Value = v only through err == nil and ok"), "the waiter's answer is not tied to get()'s verdict (a blocked Get could return a nil value with a nil error, or swallow an error)"), st)
 			}
 		}
+		// ... and ends the wait as soon as get() has a verdict: from the failed side of the error test, and from the found
+		// side of the ok test, the predicate can only return true (an error that is merely recorded leaves the Get parked:
+		// a consumer that fell behind while blocked is never told)
+		if errv != nil && okv != nil && an.Host(gc.Parent()) == gc.Parent() {
+			ifn, ns, found := pq.nilTestOf(func(v ssa.Value) bool { return v == errv })
+			okIfs, okNegs := P.IfsOn(ps[0], func(cond ssa.Value) bool { return cond == okv })
+			if found && len(okIfs) == 1 {
+				ts := 0
+				if okNegs[0] {
+					ts = 1
+				}
+				good := true
+				for _, r := range returnsOf(ps[0]) {
+					fromErr := P.PathExists(ps[0], ifn, an.Is(r), nil, cutEdge(ifn, ns))
+					fromOK := P.PathExists(ps[0], okIfs[0], an.Is(r), nil, cutEdge(okIfs[0], 1-ts))
+					if !fromErr && !fromOK {
+						continue
+					}
+					for _, v := range c.retVals(r, 0) {
+						if bv, isB := constBool(v); !isB || !bv {
+							good = false
+						}
+					}
+				}
+				pq.add("PATH", "a verdict of get() ends the wait", good, pickS(good, "after err != nil, and after ok, the predicate returns true", "the predicate can ask to keep waiting although get() failed or found the value: the blocked Get is not woken with that answer"), gc)
+			}
+		}
 		// ... on EVERY wake-up: no evaluation of the predicate answers without consulting get() (a verdict taken from a
 		// position computed earlier goes stale when the cleaner shifts the buffer while the Get is parked)
 		skip := P.PathExists(ps[0], nil, an.IsReturn, an.Is(gc), nil)
@@ -330,6 +357,26 @@ func getAsync(c *Ctx) {
 			pickS(!skip, "get(c, offset) lies on every path through the predicate", "the predicate can answer without calling get(): a wake-up can be discarded on a stale condition (e.g. an index cached before the cleaner shifted the buffer) and the blocked Get stays parked although its value is available"), gc)
 	} else {
 		g.undecided("PROV", "predicate", "expected one predicate closure calling get")
+	}
+	// what ended the wait is what the Get reports: outside the predicate, the only error put into the answer is
+	// WaitCond's own (the caller's ctx.Err() is nil when the wait was ended by Buffer.Close or the consumer's context:
+	// the Get would return (nil, nil) and advance)
+	for _, st := range an.AllInstrs(g.fn, func(in ssa.Instruction) bool {
+		s, ok := in.(*ssa.Store)
+		return ok && strings.HasSuffix(an.FieldOfAddr(s.Addr), ".Error")
+	}) {
+		okv := true
+		for _, tp := range storeTuples(st.(*ssa.Store)) {
+			if isNilConst(tp.val) {
+				continue
+			}
+			for _, sv := range P.Sources(tp.val) {
+				if sv != ssa.Value(wc.(ssa.Value)) {
+					okv = false
+				}
+			}
+		}
+		g.add("PROV", "a wait ended by cancellation reports the error WaitCond returned", okv, pickS(okv, "result.Error = the error of WaitCond", "the answer's error is not WaitCond's: a wait ended by another member of the combined context can be reported as success"), st)
 	}
 	// out has capacity 1 and is sent exactly once after WaitCond
 	sends := an.AllInstrs(g.fn, func(in ssa.Instruction) bool { _, ok := in.(*ssa.Send); return ok })
@@ -374,6 +421,7 @@ func init() {
 			consumerGet(c)
 			c.errPolarity("(*consumer).Get", "WaitCond", "(*Buffer).get", "(*Buffer).getAsync")
 			ensureRecheck(c, false) // a replaced cond strands the waiters parked on the old one
+			cleanupLogic(c)         // the cleaner repeats its pass, holding the lock every wake-up needs, while a pass reports a change: it must make progress
 			out := c.sel(func(o *an.Oblig) bool {
 				if isUndecided(o) || o.Rule == "ANCHOR" {
 					return true
